@@ -342,4 +342,133 @@ example : CleanPep "AAAK".toList ∧ CleanProt "P1".toList := by
 example : (numIbaqPeptides .firstSpace [[">P1".toList, "AAAAAAKCCCCCCCCKDDDDDDD".toList]]
     [mkParams "trypsin" "semi" 7 60 2 "KR" true]).toOption = some [("P1".toList, 3)] := by decide
 
+/-- "the peptide-to-protein map lists for each peptide exactly the … proteins … whose digestion yields that
+    peptide … in database order", for SEVERAL FASTA files and one digestion parameter set (what
+    `get_peptide_to_protein_map_from_params` returns): the merged entry of `k` is the list of identifiers of the
+    records of all files — file order, then record order inside a file — whose digest contains `k` -/
+theorem map_exact_files (parse : ParseId) (files : List (List Str)) (p : Params) (r : EnzymeRule)
+    (hr : lookupEnzyme p.enzyme = some r) (res : PMap × SeqMap) (h : fromParams parse files [p] = .ok res) (k : Str) :
+    get res.1 k =
+      ((dbRecords parse p files).filter (fun x => decide (k ∈ keysOf (argsOf r p parse) x.2))).map (·.1) :=
+  fromParams_one_get parse files p r hr res h k
+
+/-- "For FASTA files with distinct identifiers … each once and in database order", for several files and one
+    parameter set: when the identifiers are distinct across all the files, no protein is listed twice for a peptide
+    in the merged map, and every entry is a sub-sequence of the identifier list of the database (file order, then
+    record order) -/
+theorem map_nodup_db_order_files (parse : ParseId) (files : List (List Str)) (p : Params) (res : PMap × SeqMap)
+    (h : fromParams parse files [p] = .ok res)
+    (hd : ((dbRecords parse p files).map (·.1)).Nodup) (k : Str) :
+    (get res.1 k).Nodup ∧ (get res.1 k).Sublist ((dbRecords parse p files).map (·.1)) := by
+  cases hr : lookupEnzyme p.enzyme with
+  | none =>
+    obtain ⟨-, hres⟩ := fromParams_one_no_enzyme parse files p hr res h
+    subst hres
+    simp [get]
+  | some r =>
+    rw [fromParams_one_get parse files p r hr res h k]
+    have hs : (((dbRecords parse p files).filter (fun x => decide (k ∈ keysOf (argsOf r p parse) x.2))).map (·.1)).Sublist
+        ((dbRecords parse p files).map (·.1)) := (List.filter_sublist).map _
+    exact ⟨hs.nodup hd, hs⟩
+
+/-- "for non-specific searches the lookup returns exactly the proteins whose sequence contains the peptide", for
+    the object every pipeline path hands to `get_proteins`: the result of
+    `get_peptide_to_protein_map_from_params` over several FASTA files with one non-specific (hash-key) parameter
+    set.  With identifiers distinct across the files, the lookup of a peptide whose length lies within the window
+    succeeds and returns (sorted, so: a permutation of) the identifiers of exactly the records of the database
+    whose sequence contains the peptide as a substring. -/
+theorem get_proteins_nonspecific_merged (parse : ParseId) (files : List (List Str)) (p : Params)
+    (res : PMap × SeqMap) (h : fromParams parse files [p] = .ok res)
+    (hmode : modeOf p.digestion = .none) (hhash : p.useHash = true)
+    (hd : ((dbRecords parse p files).map (·.1)).Nodup)
+    (pep : Str) (hlo : p.minL ≤ pep.length) (hhi : pep.length ≤ p.maxL) :
+    ∃ l, getProteins res pep = .ok l ∧
+      l.Perm (((dbRecords parse p files).filter (fun r => containsSub pep r.2)).map (·.1)) ∧
+      ∀ pid, pid ∈ l ↔ ∃ seq, (pid, seq) ∈ dbRecords parse p files ∧ ∃ pre suf, seq = pre ++ pep ++ suf := by
+  cases hr : lookupEnzyme p.enzyme with
+  | none =>
+    obtain ⟨hf, hres⟩ := fromParams_one_no_enzyme parse files p hr res h
+    subst hf hres
+    exact ⟨[], by simp [getProteins, get], by simp [dbRecords], by simp [dbRecords]⟩
+  | some r =>
+    have hget := fromParams_one_get parse files p r hr res h (pep.take 6)
+    have hjobs := jobs_one files p
+    have hseq : res.2 = dbRecords parse p files := by
+      unfold fromParams at h
+      rw [hjobs] at h
+      have := fromParamsGo_seqs_eq parse p r hr hhash files [] [] res h (by simpa using hd)
+      simpa using this
+    have hget2 := fromParams_one_get parse files p r hr res h pep
+    generalize dbRecords parse p files = recs at hget hget2 hseq hd
+    have hkey : ∀ x : Str × Str, containsSub pep x.2 = true → pep.take 6 ∈ keysOf (argsOf r p parse) x.2 := by
+      intro x hx
+      obtain ⟨pre, suf, hseq'⟩ := (containsSub_iff pep x.2).mp hx
+      have hk : keysOf (argsOf r p parse) x.2 = (nonSpecific x.2 p.minL p.maxL).map (hashKey true) := by
+        simp [keysOf, digestPeptides, argsOf, hmode, hhash]
+      rw [hk, List.mem_map]
+      refine ⟨pep, ?_, by simp [hashKey]⟩
+      rw [mem_nonSpecific]
+      refine ⟨pre.length, pre.length + pep.length, by omega, by omega, ?_, ?_⟩
+      · rw [hseq']; simp
+      · rw [hseq']; exact (slice_of_append pre pep suf).symm
+    have hfilter : ((recs.filter (fun x => decide (pep.take 6 ∈ keysOf (argsOf r p parse) x.2))).filter (fun x => containsSub pep x.2)) =
+        recs.filter (fun x => containsSub pep x.2) := by
+      rw [List.filter_filter]
+      apply List.filter_congr
+      intro x _
+      cases hc : containsSub pep x.2
+      · simp
+      · simp [hkey x hc]
+    have hconf : confirm res.2 pep (get res.1 (pep.take 6)) =
+        .ok ((recs.filter (fun x => containsSub pep x.2)).map (·.1)) := by
+      rw [hget, hseq]
+      rw [confirm_spec recs pep _ (fun x hx => lookupSeq_of_mem recs hd x (List.mem_filter.mp hx).1), hfilter]
+    have hmemchar : ∀ pid, pid ∈ (recs.filter (fun x => containsSub pep x.2)).map (·.1) ↔
+        ∃ seq, (pid, seq) ∈ recs ∧ ∃ pre suf, seq = pre ++ pep ++ suf := by
+      intro pid
+      simp only [List.mem_map, List.mem_filter]
+      constructor
+      · rintro ⟨x, ⟨hx, hc⟩, rfl⟩
+        exact ⟨x.2, hx, (containsSub_iff pep x.2).mp hc⟩
+      · rintro ⟨seq, hx, hc⟩
+        exact ⟨(pid, seq), ⟨hx, (containsSub_iff pep seq).mpr hc⟩, rfl⟩
+    cases hrecs : recs with
+    | nil =>
+      subst hrecs
+      have h1 : get res.1 pep = [] := by simpa using hget2
+      refine ⟨[], ?_, by simp, by simp⟩
+      simp [getProteins, hseq, h1]
+    | cons r0 rest =>
+      refine ⟨sortStrs ((recs.filter (fun x => containsSub pep x.2)).map (·.1)), ?_, ?_, ?_⟩
+      · unfold getProteins
+        cases h2 : res.2 with
+        | nil => rw [hseq, hrecs] at h2; cases h2
+        | cons x xs =>
+          simp only
+          rw [← h2, hconf]
+      · rw [← hrecs]; exact sortStrs_perm _
+      · intro pid
+        rw [(sortStrs_perm _).mem_iff, hmemchar, hrecs]
+
+/-! Non-vacuity for the several-file theorems: two FASTA files (`>P2 AAKC`, `>P1 KCA`), one non-specific parameter
+set with window 2–4 (hash keys, mode `none`): the database is the two records in file order with distinct
+identifiers, the merged object is a (map, sequences) pair, the entry of the hash key `KC` is in database order, and
+the lookup of `KC` returns both proteins, sorted; `AAK` is found in `P2` only. -/
+
+private def exNsParams : Params := mkParams "trypsin" "none" 2 4 0 "KR" true
+private def exNsFiles : List (List Str) := [[">P2 second".toList, "AAKC".toList], [">P1".toList, "KCA".toList]]
+
+example : modeOf exNsParams.digestion = .none ∧ exNsParams.useHash = true ∧
+    dbRecords .firstSpace exNsParams exNsFiles = [("P2".toList, "AAKC".toList), ("P1".toList, "KCA".toList)] ∧
+    ((dbRecords .firstSpace exNsParams exNsFiles).map (·.1)).Nodup := by decide
+
+example : (fromParams .firstSpace exNsFiles [exNsParams]).toOption.map (fun res => get res.1 "KC".toList) =
+    some ["P2".toList, "P1".toList] := by decide
+example : (fromParams .firstSpace exNsFiles [exNsParams]).toOption.map (·.2) =
+    some [("P2".toList, "AAKC".toList), ("P1".toList, "KCA".toList)] := by decide
+example : (fromParams .firstSpace exNsFiles [exNsParams]).toOption.map
+      (fun res => (getProteins res "KC".toList).toOption) = some (some ["P1".toList, "P2".toList]) := by decide
+example : (fromParams .firstSpace exNsFiles [exNsParams]).toOption.map
+      (fun res => (getProteins res "AAK".toList).toOption) = some (some ["P2".toList]) := by decide
+
 end PgFdr.C09
